@@ -52,6 +52,16 @@ func nameOfLen(n int, prefix string) string {
 	return prefix + strings.Repeat("n", n-len(prefix))
 }
 
+// nameOfBytes: a name of exactly n bytes made of the multi-byte character filler (padded with 'n').
+func nameOfBytes(n int, prefix, filler string) string {
+	if n <= len(prefix) {
+		return prefix[:n]
+	}
+	k := (n - len(prefix)) / len(filler)
+	s := prefix + strings.Repeat(filler, k)
+	return s + strings.Repeat("n", n-len(s))
+}
+
 func near(v, limit uint64) bool {
 	return v+2 >= limit && v <= limit+2
 }
@@ -125,6 +135,28 @@ func runLimitGrid(t *testing.T, size uint64, viaRPC bool, unstable bool) {
 				gr.must(x.Lookup(nd, name[:lim.NameMax-1]))
 			}
 			if full {
+				gr.must(x.Readdir(nd, k%2 == 0, 4096))
+			}
+		}
+	}
+	// names of multi-byte characters: the limit is in bytes (a 112-byte entry), not in characters
+	for fi, filler := range []string{"\u00e9", "\u20ac", "\U0001F600"} {
+		for _, l := range []int{int(lim.NameMax) - 2, int(lim.NameMax) - 1, int(lim.NameMax), int(lim.NameMax) + 1, int(lim.NameMax) + 2, int(lim.NameMax) + 8, 2 * int(lim.NameMax)} {
+			for k, prefix := range []string{"uc", "ud", "ur"} {
+				name := nameOfBytes(l, fmt.Sprintf("%s%d", prefix, fi), filler)
+				switch k {
+				case 0:
+					gr.must(x.Create(nd, name))
+				case 1:
+					gr.must(x.Mkdir(nd, name))
+				case 2:
+					gr.must(x.Rename(nd, "src", nd, name))
+					if nd.N.Children[name] != nil {
+						gr.must(x.Rename(nd, name, nd, "src"))
+					}
+				}
+				gr.req(near(uint64(l), lim.NameMax), "utf8name", fi, k, l)
+				gr.must(x.Lookup(nd, name))
 				gr.must(x.Readdir(nd, k%2 == 0, 4096))
 			}
 		}
